@@ -61,6 +61,7 @@ fn make_doc(format: &str, i: usize, size: usize) -> Vec<u8> {
 		}
 		return d;
 	}
+	let index = i;
 	let i = 1_000_000_000 + i % 1_000_000_000; // fixed width in every output format
 	match format {
 		"json" => {
@@ -76,6 +77,30 @@ fn make_doc(format: &str, i: usize, size: usize) -> Vec<u8> {
 			// a directive, an anchored and tagged collection and an alias: events that own heap data in libyaml
 			let head = format!("%YAML 1.2\n---\nd: &d !!map\n  i: {}\n  p: '", i);
 			let tail = "'\ne: *d\n...\n";
+			let pad = size - head.len() - tail.len();
+			let mut d = head.into_bytes();
+			d.extend(std::iter::repeat(b'y').take(pad));
+			d.extend_from_slice(tail.as_bytes());
+			d
+		}
+		"yamls" => {
+			// scalar documents (document 0 is a mapping of the same input and JSON output size, so that the stream is
+			// detected as YAML): `--- 'i<i> yyy'`
+			// scalar: input 19 + pad bytes, JSON output pad + 15; mapping: input 25 + pad0, JSON output pad0 + 21
+			let (head, pad) = if index == 0 {
+				(format!("---\ni:    'i{} ", i), size - 25)
+			} else {
+				(format!("--- 'i{} ", i), size - 19)
+			};
+			let mut d = head.into_bytes();
+			d.extend(std::iter::repeat(b'y').take(pad));
+			d.extend_from_slice(b"'\n");
+			d
+		}
+		"yamlf" => {
+			// flow sequences, the first one starting at byte 0 with '[' and no document marker
+			let head = if index == 0 { format!("[alpha,     {}, '", i) } else { format!("--- [alpha, {}, '", i) };
+			let tail = "']\n";
 			let pad = size - head.len() - tail.len();
 			let mut d = head.into_bytes();
 			d.extend(std::iter::repeat(b'y').take(pad));
